@@ -166,7 +166,7 @@ impl Place {
             },
         }
 
-        if matches!(self.0, Some(0)) { self.0 = None; } 
+        if matches!(self.0, Some(d) if d & (Self::LAB_BIT | Self::COR_BIT | Self::DOR_BIT | Self::PHR_BIT) == 0) { self.0 = None; } 
     }
 
     /// Sets the coronal subnode to the input value 
@@ -185,7 +185,7 @@ impl Place {
                 *d &= !(Self::COR_BIT | Self::COR_LOW)
             },
         }
-        if matches!(self.0, Some(0)) { self.0 = None; } 
+        if matches!(self.0, Some(d) if d & (Self::LAB_BIT | Self::COR_BIT | Self::DOR_BIT | Self::PHR_BIT) == 0) { self.0 = None; } 
     }
 
     /// Sets the dorsal subnode to the input value 
@@ -205,7 +205,7 @@ impl Place {
                 *d &= !(Self::DOR_BIT | Self::DOR_LOW)
             },
         }
-        if matches!(self.0, Some(0)) { self.0 = None; } 
+        if matches!(self.0, Some(d) if d & (Self::LAB_BIT | Self::COR_BIT | Self::DOR_BIT | Self::PHR_BIT) == 0) { self.0 = None; } 
     }
     
     /// Sets the pharyngeaal subnode to the input value 
@@ -225,6 +225,6 @@ impl Place {
                 *d &= !(Self::PHR_BIT | Self::PHR_ASD)
             },
         }
-        if matches!(self.0, Some(0)) { self.0 = None; } 
+        if matches!(self.0, Some(d) if d & (Self::LAB_BIT | Self::COR_BIT | Self::DOR_BIT | Self::PHR_BIT) == 0) { self.0 = None; } 
     }
 }
